@@ -140,6 +140,7 @@ def run_case(ctx, gd, q, doms, cards=None):
 
 
 def run_shard(ctx):
+    gg.ALLOW_ODD = True  # node names that are not Python identifiers are node names like any other
     gg.ALLOW_PREFIXED = False  # a name T_x is a selection node for the transport algorithms
     mon_trso.install(semantic=True, K={"quick": 2, "thorough": 3}[ctx.tier])
     mon_dsep.install()
